@@ -32,12 +32,14 @@ MODELS = {
               "rules": [{"type": "assignment", "target": "kr", "ast": ["/", ["par", "c"], ["num", 4]], "frequency": "repeated"},
                         {"type": "additive", "target": "Tot", "sources": ["A", "B"], "frequency": "repeated"},
                         {"type": "assignment", "target": "Flag", "ast": ["*", ["num", 2], ["sp", "Tot"]], "frequency": "repeated"}]},
-    "delays_rules": {"species": ["S", "G", "T"], "x0": {"G": 2, "T": 1, "S": 50}, "params": {"ktx": 2.0, "d": 0.3, "m": 0.25, "s": 0.0625, "w": 3.0},
+    "delays_rules": {"species": ["S", "G", "T", "St"], "x0": {"G": 2, "T": 1, "S": 50, "St": 0}, "params": {"ktx": 2.0, "d": 0.3, "m": 0.25, "s": 0.0625, "w": 3.0},
                      "edit": {"w": 5.0, "d": 0.6},
                      "reactions": [{"type": "massaction", "reactants": ["G"], "products": ["G"], "fields": {"k": "ktx"},
                                     "delay": {"type": "gaussian", "reactants": [], "products": ["T"], "params": {"mean": "m", "std": "s"}}},
                                    {"type": "massaction", "reactants": ["T"], "products": [], "fields": {"k": "d"}}],
-                     "rules": [{"type": "assignment", "target": "S", "ast": ["+", ["sp", "G"], ["*", ["par", "w"], ["sp", "T"]]], "frequency": "repeated"}]},
+                     "rules": [{"type": "assignment", "target": "S", "ast": ["+", ["sp", "G"], ["*", ["par", "w"], ["sp", "T"]]], "frequency": "repeated"},
+                               # a rule for the initial instant only: the first row already shows it
+                               {"type": "assignment", "target": "St", "ast": ["+", ["sp", "G"], ["num", 5]], "frequency": "start"}]},
     "exhausting": {"species": ["A", "W"], "x0": {"A": 3, "W": 0}, "params": {"k": 4.0, "tau": 0.25},
                    "reactions": [{"type": "massaction", "reactants": ["A"], "products": [], "fields": {"k": "k"},
                                   "delay": {"type": "fixed", "reactants": [], "products": ["W"], "params": {"delay": "tau"}}}], "rules": []},
@@ -238,7 +240,7 @@ def run_case(case):
             x = {s: float(sp["x0"].get(s, 0)) for s in species}
             p = dict(cur_params)
             V0 = {"off": 1.0, "true": 1.0, "num": 2.0, "obj": 1.5, "dividing": 1.0}[case["volume"]]
-            ref.apply_rules(sp, x, p, 0.0, V0 if uses_vol else 1.0)
+            ref.apply_rules(sp, x, p, 0.0, V0 if uses_vol else 1.0, only=("repeated", "repeat", "start"))
             exp0 = np.array([x[s] for s in species])
             if not np.allclose(data[0], exp0, rtol=1e-12, atol=0):
                 bad("first-row", "first row %r, expected initial condition with rules %r" % (list(data[0]), list(exp0)))
